@@ -44,6 +44,7 @@ type propCfg struct {
 	ThoroughRuns int
 	ThoroughS   int
 	Race        bool // also run a slice of the seeds on the -race build
+	RaceShare   int  // 1/RaceShare of the workers use the race build (default 4)
 	Rule        string
 	Assumptions []string
 	CrashIsViolation bool
@@ -312,7 +313,11 @@ func check(prop, tier string) int {
 			bin := b.bin
 			race := false
 			// the last quarter of the workers uses the race build when the property asks for it
-			if pc.Race && i >= np-maxi(1, np/4) {
+			share := pc.RaceShare
+			if share < 1 {
+				share = 4
+			}
+			if pc.Race && i >= np-maxi(1, np/share) {
 				bin, race = b.raceBin, true
 			}
 			wd := filepath.Join(workDir, fmt.Sprintf("w%d", i))
